@@ -1,6 +1,6 @@
 (* proofs/CqlQuoteProofs.v — facts about contactql.QuoteValue (model/CqlPrinter.v [quote_value]) on top of the
    strconv.Quote / Unquote lemmas of proofs/QuoteProofs.v. *)
-From Coq Require Import List NArith Bool Lia ZifyBool ZifyN ZifyNat.
+From Coq Require Import List Arith NArith Bool Lia ZifyBool ZifyN ZifyNat.
 From Verif Require Import lib.Quote proofs.QuoteProofs model.CqlSyntax model.CqlPrinter.
 Import ListNotations.
 Open Scope N_scope.
@@ -68,12 +68,15 @@ Proof.
       exists (quote_body p (s' ++ [c])). split; [reflexivity|]. split.
       * apply quote_body_quotes_preceded.
       * pose proof (quote_body_ends_bs p (s' ++ [c])) as H. unfold ends_bs in H.
-        rewrite (last_app_nonempty s' [c]) in H by discriminate. cbn [last] in H at 2.
+        rewrite (last_app_nonempty s' [c]) in H by discriminate. change (last [c] 0) with c in H.
         assert (Hne : quote_body p (s' ++ [c]) <> []).
         { rewrite quote_body_app. cbn [quote_body flat_map]. rewrite app_nil_r.
           intros E. apply app_eq_nil in E. destruct E as [_ E]. exact (esc_nonempty p c E). }
         rewrite (last_default_irrelevant _ 34 0 Hne). lia.
 Qed.
+
+Lemma loop_x5c_tail k acc : unquote_loop (S (S k)) [92; 120; 53; 99; 34] acc false = UOk (rev (92 :: acc)).
+Proof. reflexivity. Qed.
 
 (* strconv.Unquote inverts QuoteValue on every valid code-point list *)
 Theorem unquote_quote_value : forall p s,
@@ -92,12 +95,7 @@ Proof.
     assert (HF : exists k, S (length (quote_body p s' ++ [92; 120; 53; 99; 34])) = (length s' + S (S k))%nat).
     { exists (length (quote_body p s') - length s' + 4)%nat. rewrite app_length. cbn [length]. lia. }
     destruct HF as [k ->]. rewrite (loop_body p Hnl s' Hs').
-    rewrite app_nil_r. vm_compute unquote_loop at 1.
-    cbn [unquote_loop]. change (92 =? 34) with false. change (92 =? 10) with false. cbv iota.
-    change (unquote_char [92; 120; 53; 99; 34]) with (UC 92 false [34]).
-    change ((92 <? 128) || false) with true. cbv iota.
-    cbn [unquote_loop]. change (34 =? 34) with true. cbv iota.
-    cbn [rev]. rewrite rev_app_distr, rev_involutive. reflexivity.
+    rewrite loop_x5c_tail. rewrite app_nil_r. cbn [rev]. rewrite rev_involutive. reflexivity.
   - rewrite quote_value_not_bs by (right; eauto). apply unquote_quote; assumption.
 Qed.
 
